@@ -290,6 +290,11 @@ def systematic_sources(basic):
             if not basic:
                 src([("PA", pa), ("PJ", pj)], [(hm(off + 7), "-", "LMT", "1980"), (hm(off), "PA", "A%sT", "2010 Jul 1"), (hm(off + 60), "PJ", "J%sT")],
                     "%s/%d-transitions-a-year/after-era-change" % (h, k))
+        # (M) the whole SAVE range the tables can encode (-1:00 .. +2:45 in 15-minute steps), extended scope
+        if not basic:
+            for sv in ("2:45", "2:30", "2:15", "2:00", "1:45", "0:15", "-0:30", "-1:00"):
+                pm = [("Rule", "PM", 1990, "max", "-", a[0], a[1], a[2], sv, "D"), ("Rule", "PM", 1990, "max", "-", b[0], b[1], b[2], "0", "S")]
+                src([("PM", pm)], [(hm(off + 7), "-", "LMT", "1980"), (hm(off), "PM", "M%sT")], "%s/save-%s" % (h, sv))
         # (I) a rule on the last day of a month whose time, in wall-clock terms, falls on the first day of the next month,
         # next to an era that starts on that first day
         if not basic:
